@@ -53,6 +53,9 @@ def case_scenario(draw: Any) -> dict[str, Any]:
         workers.append({"calls": calls, "chunks": draw(st.one_of(st.just([]), st.lists(st.sampled_from([1, 2, 7, 16, 64, 1000]), min_size=1, max_size=3)))})
     return {
         "lock": draw(st.sampled_from(["symlink", "open"])),
+        # the journal file was last written an hour ago (a study resumed after a pause): file
+        # ages, which the stale-lock logic looks at, are then far beyond the grace period
+        "aged": draw(st.booleans()),
         "workers": workers,
         "multi": draw(st.lists(st.lists(st.tuples(st.floats(0, 1), st.integers(0, 1)).map(list), min_size=2, max_size=3), max_size=6)),
     }
@@ -75,6 +78,11 @@ def execute(case: dict[str, Any], preempt: dict[int, int], path: str, ctx: Ctx |
             lock = JournalFileSymlinkLock(path) if case["lock"] == "symlink" else JournalFileOpenLock(path)
             backs[n] = JournalFileBackend(path, lock_obj=lock)
             fctx.chunks[n] = list(w["chunks"])
+        if case.get("aged"):
+            import time as _t
+
+            old_t = _t.time() - 3600.0
+            os.utime(path, (old_t, old_t))
         log: dict[str, list[Any]] = {n: [] for n in names}  # per call: (op, arg, start, end, result)
         appended: dict[str, list[dict[str, Any]]] = {}
 
@@ -203,7 +211,7 @@ def execute(case: dict[str, Any], preempt: dict[int, int], path: str, ctx: Ctx |
 def run_scenario(case: dict[str, Any], ctx: Ctx) -> None:
     warnings.simplefilter("ignore")
     path = os.path.join(ctx.tmpdir(), f"c07-{os.getpid()}.log")
-    scen = {k: case[k] for k in ("lock", "workers")}
+    scen = {k: case.get(k) for k in ("lock", "aged", "workers")}
 
     def one(preempt: dict[int, int]) -> int:
         try:
